@@ -14,7 +14,7 @@ import time
 
 VERIF = os.path.dirname(os.path.dirname(os.path.abspath(__file__)))
 REPO = os.environ.get("VERIF_REPO", "/repo")
-BUILD = os.path.join(VERIF, ".build")
+BUILD = os.environ.get("VERIF_BUILD") or os.path.join(VERIF, ".build")   # VERIF_BUILD: private cache for parallel mutation workers
 DRIVER_DIR = os.path.join(VERIF, "sefacts")
 DRIVER = os.path.join(DRIVER_DIR, "target", "release", "sefacts")
 
